@@ -594,6 +594,15 @@ pub fn project(runs: &[Run]) -> (Vec<String>, Vec<i64>, FileStats) {
                                 0.
                             };
                             let moved = if k < vec.len() && k < base.len() { (vec[k] - base[k]).abs() } else { 0. };
+                            // the stored value is the rounding of (held + move): the difference of
+                            // the two stored numbers may exceed the move by an ulp of the larger one
+                            // (matters only for maximum steps near machine precision)
+                            let moved = if moved > 0. && k < vec.len() && k < base.len() {
+                                let big = f64::max(vec[k].abs(), base[k].abs());
+                                f64::max(moved - (crate::states::next_up(big) - big), f64::MIN_POSITIVE)
+                            } else {
+                                moved
+                            };
                             if moved == 0. {
                                 0
                             } else if maxd > 0. && run.check_range {
